@@ -443,6 +443,14 @@ def decoder_tokens(ctx, body, fam, depth=0, subst=None):
         elif (site.path or "").endswith("to_vec") and tgt is None:
             # the variable-length part: slice copied out
             toks.append((d, "B", bb))
+        elif tgt is None and depth < 4:
+            # `(0..n).map(|_| read_x(..)).collect()`: the closure of an iterator adaptor is a loop body
+            for cb, how in prog.call_targets(site):
+                if how != "extern-cb":
+                    continue
+                extra = 1 if (site.path or "").startswith(("std::iter::", "core::iter::")) else 0
+                for (d2, w2, _) in decoder_tokens(ctx, cb, fam, depth + 1):
+                    toks.append((d + extra + d2, w2, bb))
     return toks
 
 
@@ -661,7 +669,12 @@ def value_rejections(ctx, r, bodies):
             elif kind == "cmp":
                 la = sl.leaves_of_operand(c[2])
                 lb = sl.leaves_of_operand(c[3])
-                if _input_len_leaf(ctx, b, sl, la) or _input_len_leaf(ctx, b, sl, lb):
+                pla, plb = place_of(c[2]), place_of(c[3])
+                u8cmp = c[1] in ("Eq", "Ne") and any(
+                    pl_ is not None and prog.ty_str(ctx.world._place_ty(b, pl_)) == "u8" for pl_ in (pla, plb))
+                if u8cmp and (all(l[0] == "const" for l in la) or all(l[0] == "const" for l in lb)):
+                    why = "tag test: a byte read from the input is compared with a variant tag"
+                elif _input_len_leaf(ctx, b, sl, la) or _input_len_leaf(ctx, b, sl, lb):
                     why = "compares against the amount of input left"
                 else:
                     consts = set(l[1] for l in (la | lb) if l[0] == "const")
@@ -758,6 +771,43 @@ def _has_loop_or_reads(ctx, b, fam):
     return any(ctx.prog.local_target(s) is not None and ctx.prog.local_target(s).path in fam for s in b.calls())
 
 
+def tag_tests(ctx, body):
+    """The decoder's tests of the tag byte: ([(value, (switch block, target taken when tag == value))],
+    [edges taken when a test fails]) - from a `match` (switchInt on the u8) or from `if tag == C` / `if tag != C`
+    chains."""
+    prog = ctx.prog
+    sl = Slicer(ctx.world, body)
+    eq = []
+    other = []
+    for sw in body.normal_blocks():
+        t = body.blocks[sw]["term"]
+        if t["k"] != "switch":
+            continue
+        if prog.ty_str(t["dty"]) == "u8" and len(t["targets"]) >= 1 and not cfgutil.eq_edges(body, sw):
+            for v, tgt in t["targets"]:
+                eq.append((v, (sw, tgt)))
+            other.append((sw, t["otherwise"]))
+            continue
+        e = cfgutil.eq_edges(body, sw)
+        if e is None:
+            continue
+        a, b_, t_eq, t_ne = e
+        for (x, y) in ((a, b_), (b_, a)):
+            pl = place_of(x)
+            if pl is None or prog.ty_str(ctx.world._place_ty(body, pl)) != "u8":
+                continue
+            lx = sl.leaves_of_operand(x)
+            ly = sl.leaves_of_operand(y)
+            if lx and all(l[0] == "call" for l in lx) and ly and all(l[0] == "const" and isinstance(l[1], int) for l in ly) \
+                    and len(ly) == 1:
+                if t_eq is not None:
+                    eq.append((list(ly)[0][1], (sw, t_eq)))
+                if t_ne is not None:
+                    other.append((sw, t_ne))
+                break
+    return eq, other
+
+
 def split_arms(ctx, body, toks, encoder):
     """tag value -> tokens dominated by that arm. Encoder: arm = match arm that pushes const tag;
     decoder: edge of the switch on the tag byte."""
@@ -778,19 +828,13 @@ def split_arms(ctx, body, toks, encoder):
                 if bb != tb and body.dominates(tb, bb):
                     arms.setdefault(tag, []).append((d, w, bb))
         return arms
-    # decoder: switch on a u8 read
-    for sw in body.normal_blocks():
-        t = body.blocks[sw]["term"]
-        if t["k"] != "switch" or len(t["targets"]) < 2:
-            continue
-        if prog.ty_str(t["dty"]) != "u8":
-            continue
-        for v, tgt in t["targets"]:
-            for (d, w, bb) in toks:
-                if cfgutil.edge_dominates(body, (sw, tgt), bb):
-                    arms.setdefault(v, []).append((d, w, bb))
-        return arms
-    return {}
+    # decoder: tests of the tag byte
+    eq, _other = tag_tests(ctx, body)
+    for v, edge in eq:
+        for (d, w, bb) in toks:
+            if cfgutil.edge_dominates(body, edge, bb):
+                arms.setdefault(v, []).append((d, w, bb))
+    return arms if len(arms) >= 2 else {}
 
 
 def tag_agreement(ctx, r, fam):
@@ -828,21 +872,24 @@ def tag_agreement(ctx, r, fam):
         for dcd in top_level_decoders(ctx):
             if prog.adt_of(dcd.locals[0])[1] and d in prog.ty_str(dcd.locals[0]):
                 dec_map = {}
+                eq, other = tag_tests(ctx, dcd)
+                for v, edge in eq:
+                    # variant built under this edge
+                    for bb in dcd.normal_blocks():
+                        for s in dcd.stmts(bb):
+                            if s["k"] == "assign" and s["rv"]["k"] == "agg" and s["rv"].get("def") == d and \
+                                    cfgutil.edge_dominates(dcd, edge, bb):
+                                dec_map[v] = s["rv"]["variant"]
+                # a tag that passes none of the tests ends in an error: follow only the 'different' edges
+                rf = ctx.must(None).rf(dcd)
                 err_default = False
-                for sw in dcd.normal_blocks():
-                    t = dcd.blocks[sw]["term"]
-                    if t["k"] != "switch" or prog.ty_str(t["dty"]) != "u8":
-                        continue
-                    for v, tgt in t["targets"]:
-                        # variant built under this edge
-                        for bb in dcd.normal_blocks():
-                            for s in dcd.stmts(bb):
-                                if s["k"] == "assign" and s["rv"]["k"] == "agg" and s["rv"].get("def") == d and \
-                                        cfgutil.edge_dominates(dcd, (sw, tgt), bb):
-                                    dec_map[v] = s["rv"]["variant"]
-                    rf = ctx.must(None).rf(dcd)
-                    oth = cfgutil.reach(dcd, t["otherwise"])
-                    err_default = any(rf.forwarded.get(x) == "err" for x in oth) and not any(
+                if other:
+                    eq_edges_set = set(ed for _, ed in eq)
+                    last = [ed for ed in other if not any(cfgutil.edge_dominates(dcd, ed, o[0]) for o in other if o != ed)]
+                    oth = set()
+                    for ed in last:
+                        oth |= cfgutil.reach(dcd, ed[1], removed_edges=list(eq_edges_set))
+                    err_default = bool(oth) and any(rf.forwarded.get(x) == "err" for x in oth) and not any(
                         rf.forwarded.get(x) == "ok" for x in oth)
                 for var, tag in sorted(enc_map.items(), key=str):
                     vn = prog.adts[d]["variants"][var]["name"] if isinstance(var, int) else var
